@@ -485,6 +485,22 @@ def _r6(run):
                     run.violated("C10.R6", f, c, "lock files are cleaned up inside `with %s`: the workers are still alive there (they are flushed and joined when the block "
                                  "is left), so a lock a worker holds can be deleted under it and a second updater of that tile gets in" % live[0][1], kind="cleanup-too-early")
                     continue
+                # the caller is itself a parallel stage: between the start of its workers and their join the locks are live
+                stage = _stages_by_func(project).get(f.qual)
+                if stage is not None:
+                    from . import C03 as _c03
+                    scfg = stage.cfg
+                    snode = scfg.node_containing(c) if any(x is c for n_ in scfg.nodes for x in scfg.calls_at(n_)) else None
+                    starts = [n_ for n_, c_ in common.method_calls_on(scfg, stage.proc_vars, "start")]
+                    joins = _c03._join_nodes(stage, project)
+                    if snode is not None and starts and joins:
+                        live_ = set()
+                        for s_ in starts:
+                            live_ |= scfg.reachable(s_.id, avoid=joins, skip_labels=("exc",))
+                        if snode.id in live_:
+                            run.violated("C10.R6", f, c, "lock files are cleaned up after the workers of %s were started and before they are joined: a worker "
+                                         "that is still inside update_image loses its lock file and a second updater of that tile gets in" % f.short, kind="cleanup-too-early")
+                            continue
                 cfg = CFG(f.node)
                 cn = cfg.node_containing(c)
                 starters = common.worker_starters(project)
@@ -507,3 +523,16 @@ def _r6(run):
                     run.holds("C10.R6", f, c, "lock cleanup call site", function=f.short)
     if n == 0:
         run.holds("C10.R6", project.fn(P + ".PyramidIO.clean_lockfiles"), None, "clean_lockfiles has no caller")
+
+
+def _stages_by_func(project):
+    cache = getattr(project, "_c10_stage_cache", None)
+    if cache is None:
+        cache = {}
+        try:
+            for st in common.discover_stages(project):
+                cache[st.func.qual] = st
+        except Exception:
+            pass
+        project._c10_stage_cache = cache
+    return cache
